@@ -212,7 +212,7 @@ def run(ctx):
                          'witness': {'lines': [b.hex() for _, b in lines], 'encoding': enc}})
         # --- file C: adjacent duplicates collapsed into count prefixes (--prefixcount) vs. expanded plain file D
         seq = [(k, b) for k, b in lines if k in ('plain', 'hex')]
-        rep = [(k, b, rng.choice([1, 1, 2, 3, 5])) for k, b in seq]
+        rep = [(k, b, rng.choice([1, 1, 2, 3, 5, 0])) for k, b in seq]      # `0 <password>`: counted zero times
         pc = os.path.join(root, 'c.txt')
         pd = os.path.join(root, 'd.txt')
         with open(pc, 'wb') as f:
@@ -260,9 +260,13 @@ def run(ctx):
         rep = []
         for w in base:
             try:
-                rep.append((w.encode(enc), rng.choice([1, 2, 3])))
+                rep.append((w.encode(enc), rng.choice([1, 2, 3]) if i != 1 else 1))
             except UnicodeEncodeError:
                 pass
+        if i == 1 and rep:
+            # a list without any repetition; its counted form also carries a line for a password counted zero times, ahead of that
+            # password's single occurrence: nothing a reader notices on the way (here: "a duplicate was seen") may reach the ruleset
+            rep = [(rep[-1][0], 0)] + rep
         f1, f2, f3 = (os.path.join(root, n) for n in ('t1.txt', 't2.txt', 't3.txt'))
         with open(f1, 'wb') as f:
             for b, n in rep:
